@@ -190,6 +190,8 @@ type Pool struct {
 	Workers int
 	CPUSecs int
 	LogDir  string // job log + worker stderr files
+	// WorkerEnv returns extra environment for worker number idx (e.g. a VERIF_SCHED seed)
+	WorkerEnv func(idx int) []string
 }
 
 func (p *Pool) spawn(idx int) (*poolWorker, error) {
@@ -205,6 +207,9 @@ func (p *Pool) spawn(idx int) (*poolWorker, error) {
 	defer ef.Close()
 	cmd := exec.Command(self, "__worker")
 	cmd.Env = append(os.Environ(), "FERRET_LIBS_PATH="+p.Libs, "GOMAXPROCS=4")
+	if p.WorkerEnv != nil {
+		cmd.Env = append(cmd.Env, p.WorkerEnv(idx)...)
+	}
 	cmd.Stderr = ef
 	cmd.SysProcAttr = &syscall.SysProcAttr{Setpgid: true}
 	w.stdin, err = cmd.StdinPipe()
